@@ -104,7 +104,12 @@ impl Ledger {
             self.bad(slot, BAD_CORRUPT_DROP);
         }
         let d = self.dropped[s].fetch_add(1, Relaxed) + 1;
-        if d > self.born[s].load(Relaxed) {
+        // A slot shared by many values (the non-unique classes) is incremented by several threads: a plain relaxed
+        // load of `born` may legally return a value older than increments that happened-before drops already
+        // counted in `d` (seen under Miri's weak-memory emulation as a false "double drop"); a read-modify-write
+        // reads the newest value in modification order. Unique slots are written once, before the value travels.
+        let born = if slot < FIRST_UNIQUE { self.born[s].fetch_add(0, Relaxed) } else { self.born[s].load(Relaxed) };
+        if d > born {
             self.bad(slot, BAD_DOUBLE_DROP);
         }
         self.ctx[s].store(cur_op(), Relaxed);
